@@ -339,7 +339,7 @@ theorem baseBuild_meta {ig extra : List (List String)} {kvs : Kvs} {e : J}
     | true =>
       simp only [hok, Bool.not_true, Bool.false_eq_true, if_false] at h
       obtain ⟨l1, rfl, hm1, _⟩ := picks_meta h1 hok
-      cases h3 : cherrypick (.obj kvs) (stage2 (.obj l1)) extra with
+      cases h3 : cherrypickSkip (.obj kvs) (stage2 (.obj l1)) extra with
       | error er => rw [h3] at h; cases h
       | ok e3 =>
         rw [h3] at h
@@ -351,7 +351,7 @@ theorem baseBuild_meta {ig extra : List (List String)} {kvs : Kvs} {e : J}
           cases bodyAnn kvs with
           | none => rfl
           | some a => simp [prefOf, filtK, keepA]
-        have ⟨g3, o3⟩ := cherrypick_keeps (.obj kvs) "metadata" extra _ _ hx h3
+        have ⟨g3, o3⟩ := cherrypickSkip_keeps (.obj kvs) "metadata" extra _ _ hx h3
           (by unfold stage2; exact filterAnnotations_isObj _ _)
         cases e3 with
         | obj l3 =>
@@ -462,10 +462,6 @@ theorem remove_isObj : ∀ (f : List String) (d d' : J), d.isObj = true → remo
           split at h <;> (simp [pure, Except.pure] at h; subst h; rfl)
     | _ => simp [remove] at h
 
-theorem remove2_isObj {e e' : J} {f t : List String} (ho : e.isObj = true) (h : remove2 e f t = .ok e') : e'.isObj = true := by
-  obtain ⟨e1, r1, r2⟩ := remove2_ok h
-  exact remove_isObj t e1 e' (remove_isObj f e e1 ho r1) r2
-
 theorem ignoreFields_isObj : ∀ (ig : List (List String)) (e e' : J), e.isObj = true →
     ignoreFields e ig = .ok e' → e'.isObj = true
   | [], e, e', ho, h => by simp [ignoreFields] at h; subst h; exact ho
@@ -498,12 +494,12 @@ theorem baseBuild_isObj {ig extra : List (List String)} {b e : J} (h : baseBuild
           lookup_erase_other _ (by decide)])).2
       cases e1 with
       | obj l1 =>
-        cases h3 : cherrypick (.obj kvs) (stage2 (.obj l1)) extra with
+        cases h3 : cherrypickSkip (.obj kvs) (stage2 (.obj l1)) extra with
         | error er => rw [h3] at h; cases h
         | ok e3 =>
           rw [h3] at h
           simp only [] at h
-          have o3 := (cherrypick_get? (.obj kvs) "zzz" extra _ _ h3 (by unfold stage2; exact filterAnnotations_isObj _ _) (by
+          have o3 := (cherrypickSkip_get? (.obj kvs) "zzz" extra _ _ h3 (by unfold stage2; exact filterAnnotations_isObj _ _) (by
             unfold stage2
             rw [filterAnnotations_get? _ _ (by decide)]
             have := (cherrypick_get? (.obj kvs) "zzz" _ _ _ h1 rfl (by
@@ -576,8 +572,8 @@ theorem leafBuild_meta {hs : Hashes} {extra : List (List String)} {l : Kvs} {e :
     obtain ⟨e1, h1, h2⟩ := bind_ok h
     have g1 := hsrc ig extra e1 (fun g hg => hav g (List.mem_cons_of_mem _ hg)) hx h1
     obtain ⟨hd, hhd, hne⟩ := hav f List.mem_cons_self
-    refine ⟨remove_isObj f e1 e (baseBuild_isObj h1) (liftD_ok h2), ?_⟩
+    refine ⟨ignoreFields_isObj [f] e1 e (baseBuild_isObj h1) h2, ?_⟩
     simp only []
-    rw [remove_get? f e1 e hd "metadata" hhd hne (liftD_ok h2), g1]
+    rw [ignoreFields_get? "metadata" [f] e1 e (avoidKey_one hhd hne) h2, g1]
 
 end Kopf.C04
